@@ -163,7 +163,9 @@ Proof.
         pose proof (Hsym _ _ _ (Sl _ _ Hi)) as S2. rewrite S1 in S2. inversion S2; subst rfs.
         destruct Er as [_ [B C]]. split; [reflexivity|]. split; assumption.
       - cbn in Hz. destruct (m =? n); [|discriminate]. inversion Hz; subst. discriminate. }
-    apply (IH (done ++ [(n, r)]) h1 (cb ++ [(n, l)]) h' cb'); try (rewrite <- app_assoc; assumption); [|exact H].
+    assert (done ++ (n, r) :: rows = (done ++ [(n, r)]) ++ rows) as EA by (rewrite <- app_assoc; reflexivity).
+    rewrite EA in Src, ND, K. rewrite EA.
+    apply (IH (done ++ [(n, r)]) h1 (cb ++ [(n, l)]) h' cb'); try assumption.
     split; [eapply hext_trans; eauto|]. split.
     + apply Forall2_app; [eapply Forall2_impl; [|exact F]; intros a b; now apply rrel_mono|].
       constructor; [|constructor]. split; [reflexivity | exact F1].
@@ -250,3 +252,18 @@ Proof.
   intros H. destruct (arefs_aslot _ _ gcopy_nd H) as [x [y S]]. destruct (gcopy_fw _ _ _ S) as [r [c [c' [_ [_ [_ [_ [_ [B _]]]]]]]]]. lia.
 Qed.
 End GCopy.
+
+(* a full copy (every neighbour kept, cells copied unchanged) shows the same rows *)
+Definition rowview (h : hp) (nr : Z * list (Z * ref)) : Z * list (Z * option bcell) :=
+  (fst nr, map (fun mr => (fst mr, hget h (snd mr))) (snd nr)).
+Lemma filter_all {A} (p : A -> bool) l : (forall x, p x = true) -> filter p l = l.
+Proof. intros H. induction l as [|a r IH]; cbn; [reflexivity|]. now rewrite H, IH. Qed.
+Lemma gcopy_view keep f h0 h' rows cb' :
+  (forall m, keep m = true) -> (forall c c', f c = Ok c' -> c' = c) ->
+  Forall2 (rrel keep f h0 h') rows cb' -> map (rowview h') cb' = map (rowview h0) rows.
+Proof.
+  intros Ka Hf. induction 1 as [|[n r] [n' r'] a b [E F] _ IH]; cbn; [reflexivity|]. cbn in E, F. subst. rewrite IH. f_equal.
+  unfold rowview; cbn. f_equal. rewrite filter_all in F by (intros; apply Ka). clear -F Hf.
+  induction F as [|[m rf] [m' rf'] t t' [E [_ [c [c' [H1 [H2 H3]]]]]] _ IH]; cbn; [reflexivity|]. cbn in *. subst.
+  rewrite IH. f_equal. apply Hf in H2. subst. now rewrite H1, H3.
+Qed.
